@@ -336,8 +336,11 @@ def run(ctx):
                        "the empty symbol) with (eval name env); each probe is compared with the extracted SPEC (which library's definition, unbound, or "
                        "import error; names R7RS leaves unspecified because bound twice are skipped); a probe is non-trivial when the import set has "
                        "depth >= 1 and distinct by (graph shape, import sets, name).  inner: (%resolve-import x), symbol-drop, symbol-append in the real "
-                       "chibi vs the code translated from the same source, on the same import sets plus a malformed stream.  thorough adds the "
-                       "grammar-complete enumeration of depth <= 2 over a 4-name library.")
+                       "chibi vs the code translated from the same source, on the same import sets plus a malformed stream; the frames of the "
+                       "importing environment ((env-exports frame) down the parent chain) vs the extracted Env.env_import.  module table: per graph "
+                       "2-5 further libraries with arbitrary imports (self, cycles, missing libraries) loaded 4-8 times in one process vs the "
+                       "extracted Load.run_history (per step success/error, exact order of body evaluations).  thorough adds the enumeration of "
+                       "all import sets of depth <= 2 over a 4-name library with swapped renamed exports (11+ id lists, 8 rename lists, 3 prefixes).")
     # ------------------------------------------------------------------ (G) + (T)
     gen_ok = G.regen(ctx)
     ctx.coq_obligations("Properties_C14")
